@@ -16,6 +16,7 @@ package c05
 
 import (
 	"fmt"
+	"reflect"
 	"sort"
 	"strings"
 	"testing"
@@ -383,7 +384,7 @@ func runRepr(c ReprCase, r *runlog.R) error {
 			return fmt.Errorf("variant %d: building the representation failed: %v", vi, err)
 		}
 		desc := lazy(func() string {
-			return fmt.Sprintf("variant %d: NewFrom(%T) under %s of %s", vi, src, o, showOrdered(vt))
+			return fmt.Sprintf("variant %d: NewFrom(%T) under %s of %s", vi, src, o, showOrderedAs(vt, true))
 		})
 		c1, err := newFrom(src, opts)
 		d1, more, fail := e.verdict(desc, c1, err)
@@ -614,39 +615,75 @@ func perms(n int) [][]int {
 }
 
 // showOrdered renders a tree with its object keys in insertion order; objects
-// written as structs are marked with their layout.
-func showOrdered(t *gen.Tree) string {
+// written as structs are marked with their layout, primitives and nils that
+// are not given in their natural Go type with the type they are built in, and
+// nodes behind a pointer/interface chain with its links (innermost first: p
+// typed pointer, i pointer to an interface{} variable, n pointer to a variable
+// of a named interface type).
+func showOrdered(t *gen.Tree) string { return showOrderedAs(t, false) }
+
+func showLinks(w int) string {
+	out := ""
+	for ; w != 0; w >>= 2 {
+		out += string("-pin"[w&3])
+	}
+	return out
+}
+
+func showOrderedAs(t *gen.Tree, nilConts bool) string {
 	var b strings.Builder
-	var rec func(t *gen.Tree)
-	rec = func(t *gen.Tree) {
+	scratch := &builder{used: map[string]int{}, nilConts: nilConts}
+	var rec func(t *gen.Tree, r int, group []*gen.Tree)
+	children := func(t *gen.Tree) {
+		uniform := typedCont(t) && len(t.Vals) > 1 && sameClassPrims(t.Vals)
+		for i, e := range t.Vals {
+			if i > 0 {
+				b.WriteString(", ")
+			}
+			if t.K == "obj" {
+				fmt.Fprintf(&b, "%q: ", t.Keys[i])
+			}
+			if uniform {
+				rec(e, t.Vals[0].R, t.Vals)
+			} else {
+				rec(e, e.R, []*gen.Tree{e})
+			}
+		}
+	}
+	rec = func(t *gen.Tree, r int, group []*gen.Tree) {
 		switch t.K {
 		case "obj":
 			b.WriteString("{")
-			for i, k := range t.Keys {
-				if i > 0 {
-					b.WriteString(", ")
-				}
-				fmt.Fprintf(&b, "%q: ", k)
-				rec(t.Vals[i])
-			}
+			children(t)
 			b.WriteString("}")
 			if asStruct(t) {
-				fmt.Fprintf(&b, "#struct(%s)", showLayout(t))
+				fmt.Fprintf(&b, "#struct(%s", showLayout(t))
+				for run := 0; run < 3; run++ {
+					if w := (t.R >> (inlineShift + 4*run)) & 15; w != 0 {
+						fmt.Fprintf(&b, "; member %d @%s", run, showLinks(w))
+					}
+				}
+				b.WriteString(")")
 			}
 		case "list":
 			b.WriteString("[")
-			for i, e := range t.Vals {
-				if i > 0 {
-					b.WriteString(", ")
-				}
-				rec(e)
-			}
+			children(t)
 			b.WriteString("]")
 		default:
 			b.WriteString(canon.Show(t.Prim()))
+			if built := scratch.primAs(t, r, group); built != nil && reflect.TypeOf(built) != reflect.TypeOf(t.Prim()) {
+				fmt.Fprintf(&b, "(%T)", built)
+			}
+			return
+		}
+		if t.R&boxBit != 0 && typedCont(t) {
+			b.WriteString("#boxed")
+		}
+		if w := (t.R >> chainShift) & 0xff; w != 0 {
+			b.WriteString("@" + showLinks(w))
 		}
 	}
-	rec(t)
+	rec(t, t.R, []*gen.Tree{t})
 	return b.String()
 }
 
